@@ -8,7 +8,7 @@ from common import Driver, DriverFailure
 
 LEVEL = "proof"
 MANIFEST = dict(
-    text="Lean 4 theorems over histories of ANY length of manager calls (locate with 0/1/2 spas or raising, connect with every event sequence  Session 4: every error scenario x reset origin is run on the real stack with a suspending client handler and the reset must land in IDLE; the guard `self._spa is not None` is part of the translated vocabulary (.spaSome)."
+    text="Lean 4 theorems over histories of ANY length of manager calls (locate with 0/1/2 spas or raising, connect with every event sequence  Session 4: every error scenario x reset origin is run on the real stack with a suspending client handler and the reset must land in IDLE; the guard `self._spa is not None` is part of the translated vocabulary (.spaSome). The order inside GeckoAsyncSpa.disconnect() is a theorem over its regenerated suspension skeleton (disconnect_order: announced before the spa cancels its own tasks, nothing suspends between that cancellation and the last clean-up step)."
          "`_connect` can produce incl. a raise at each await and a raising facade constructor, async_connect, every run-time event of the spa, "
          "ping-miss / RF-error sequences, water-care error, reset, set-spa-info), each enabled as the sequence pump drives it: CONNECTED only with "
          "an announced, not-torn-down facade on a connected spa; facade-ready exactly when CONNECTED is entered; per facade #teardown <= #ready <= 1; "
@@ -674,7 +674,7 @@ EXPECT = {"teardown-without-facade": "every CLIENT_FACADE_TEARDOWN is delivered 
 
 
 def run(ctx):
-    st = translate.run(["LifecycleEnums", "LifecycleTable", "LifecycleReach"])
+    st = translate.run(["LifecycleEnums", "LifecycleTable", "LifecycleReach", "Skeletons"])
     ctx.cov["translator"] = st
     for k, v in st.items():
         if v != "ok":
